@@ -49,3 +49,25 @@ def carried_definitions(fi, cfg=None, loop=None):
             if isinstance(d, tuple) and name in used:
                 carried.append((node, name, cfg.nodes[d[1]]))
     return carried
+
+
+
+def leaked_definitions(fi, cfg=None, loop=None):
+    """[(reading node, name, defining node)]: a value assigned while processing an entry (inside the entry loop) that is read
+    after the loop -- there it is the *last* entry's value, whatever entry is being dealt with."""
+    from sa.defuse import reaching_defs
+    cfg = cfg or build_cfg(fi.node)
+    loop = loop or entry_loop(fi, cfg)
+    if loop is None:
+        return None
+    body_ids = set(loop["body"]) | {loop["bind"]}
+    RD = reaching_defs(cfg, fi.params())
+    out = []
+    for node in cfg.nodes:
+        if node.id in body_ids or node.id in (loop.get("iter"), loop.get("first"), loop.get("next")):
+            continue
+        used = loads(node)
+        for (name, d) in sorted(RD.get(node.id) or (), key=str):
+            if name in used and isinstance(d, int) and d in body_ids:
+                out.append((node, name, cfg.nodes[d]))
+    return out
